@@ -9,115 +9,181 @@ namespace PromqlVerif
 variable {V : Type}
 
 /-- the hints in hand agree with the path walked so far -/
-def Agrees (h : Hint) (path : List (Expr V)) : Prop :=
-  h.fn = refFunc path ∧ h.by_ = (refGroup path).1 ∧ h.grouping = (refGroup path).2
+def Agrees (step : Int) (h : Hint) (path : List (Expr V)) : Prop :=
+  h.fn = refFunc path ∧ h.by_ = (refGroup path).1 ∧ h.grouping = (refGroup path).2 ∧
+    h.step = step ∧ h.range = 0
 
-theorem agrees_empty : Agrees (V := V) Hint.empty [] := ⟨rfl, rfl, rfl⟩
+theorem agrees_start (step : Int) : Agrees (V := V) step (Hint.start step) [] := ⟨rfl, rfl, rfl, rfl, rfl⟩
 
 mutual
 
-theorem eng_eq_ref (h : Hint) (path : List (Expr V)) (ha : Agrees h path) :
-    ∀ e : Expr V, engHints h e = refHints path e
+theorem eng_eq_ref (step : Int) (h : Hint) (path : List (Expr V)) (ha : Agrees step h path) :
+    ∀ e : Expr V, refHints step path 0 e = (engHints h e, 0)
   | .vsel s => by
-    obtain ⟨h1, h2, h3⟩ := ha
+    obtain ⟨h1, h2, h3, h4, h5⟩ := ha
     rw [engHints, refHints]
     cases h
     simp_all
   | .call fn args => by
     rw [engHints, refHints]
-    exact args_eq_ref ⟨fn, false, []⟩ (.call fn args :: path) ⟨rfl, rfl, rfl⟩ ⟨rfl, rfl⟩ args
+    exact args_eq_ref step (h.withFn fn false []) (.call fn args :: path)
+      ⟨rfl, rfl, rfl, ha.2.2.2.1, ha.2.2.2.2⟩ ⟨rfl, rfl⟩ args
   | .agg op w g e => by
     rw [engHints, refHints]
-    exact eng_eq_ref ⟨op, !w, g⟩ (.agg op w g e :: path) ⟨rfl, rfl, rfl⟩ e
+    exact eng_eq_ref step (h.withFn op (!w) g) (.agg op w g e :: path) ⟨rfl, rfl, rfl, ha.2.2.2.1, ha.2.2.2.2⟩ e
   | .aggP op w g p e => by
     rw [engHints, refHints]
-    rw [eng_eq_ref ⟨op, !w, g⟩ (.aggP op w g p e :: path) ⟨rfl, rfl, rfl⟩ e,
-      eng_eq_ref ⟨op, !w, g⟩ (.aggP op w g p e :: path) ⟨rfl, rfl, rfl⟩ p]
+    try simp only
+    rw [eng_eq_ref step (h.withFn op (!w) g) (.aggP op w g p e :: path) ⟨rfl, rfl, rfl, ha.2.2.2.1, ha.2.2.2.2⟩ e]
+    try simp only
+    rw [eng_eq_ref step (h.withFn op (!w) g) (.aggP op w g p e :: path) ⟨rfl, rfl, rfl, ha.2.2.2.1, ha.2.2.2.2⟩ p]
   | .bin op b m l r => by
     rw [engHints, refHints]
-    rw [eng_eq_ref Hint.empty (.bin op b m l r :: path) ⟨rfl, rfl, rfl⟩ l,
-      eng_eq_ref Hint.empty (.bin op b m l r :: path) ⟨rfl, rfl, rfl⟩ r]
+    try simp only
+    rw [eng_eq_ref step h.clear (.bin op b m l r :: path) ⟨rfl, rfl, rfl, ha.2.2.2.1, ha.2.2.2.2⟩ l]
+    try simp only
+    rw [eng_eq_ref step h.clear (.bin op b m l r :: path) ⟨rfl, rfl, rfl, ha.2.2.2.1, ha.2.2.2.2⟩ r]
   | .neg e => by
     rw [engHints, refHints]
-    exact eng_eq_ref h.noGroup (.neg e :: path) ⟨ha.1, rfl, rfl⟩ e
+    exact eng_eq_ref step h.noGroup (.neg e :: path) ⟨ha.1, rfl, rfl, ha.2.2.2.1, ha.2.2.2.2⟩ e
   | .pos e => by
     rw [engHints, refHints]
-    exact eng_eq_ref h.noGroup (.pos e :: path) ⟨ha.1, rfl, rfl⟩ e
+    exact eng_eq_ref step h.noGroup (.pos e :: path) ⟨ha.1, rfl, rfl, ha.2.2.2.1, ha.2.2.2.2⟩ e
   | .paren e => by
     rw [engHints, refHints]
-    exact eng_eq_ref h.noGroup (.paren e :: path) ⟨ha.1, rfl, rfl⟩ e
+    exact eng_eq_ref step h.noGroup (.paren e :: path) ⟨ha.1, rfl, rfl, ha.2.2.2.1, ha.2.2.2.2⟩ e
   | .stepInv e => by
     rw [engHints, refHints]
-    exact eng_eq_ref h.noGroup (.stepInv e :: path) ⟨ha.1, rfl, rfl⟩ e
+    exact eng_eq_ref step h.noGroup (.stepInv e :: path) ⟨ha.1, rfl, rfl, ha.2.2.2.1, ha.2.2.2.2⟩ e
   | .subq e => by
     rw [engHints, refHints]
-    exact eng_eq_ref h.noGroup (.subq e :: path) ⟨ha.1, rfl, rfl⟩ e
+    exact eng_eq_ref step h.noGroup (.subq e :: path) ⟨ha.1, rfl, rfl, ha.2.2.2.1, ha.2.2.2.2⟩ e
   | .num _ => by rw [engHints, refHints] <;> (intros; contradiction)
   | .str => by rw [engHints, refHints] <;> (intros; contradiction)
   | .msel _ _ => by rw [engHints, refHints] <;> (intros; contradiction)
   | .coalesce _ => by rw [engHints, refHints] <;> (intros; contradiction)
   | .remote _ _ => by rw [engHints, refHints] <;> (intros; contradiction)
 
-/-- the arguments of a call: `hc` is the call's hint, `p` the path with the call in front -/
-theorem args_eq_ref (hc : Hint) (p : List (Expr V)) (ha : Agrees hc p)
+/-- the arguments of a call: `hc` is the call's hint, `p` the path with the call in front; the
+reference's `evalRange` is 0 before and after every argument -/
+theorem args_eq_ref (step : Int) (hc : Hint) (p : List (Expr V)) (ha : Agrees step hc p)
     (hcall : hc.by_ = false ∧ hc.grouping = []) :
-    ∀ args : List (Expr V), engHints.callArgs hc args = refHints.refArgs p args
+    ∀ args : List (Expr V), refHints.refArgs step p 0 args = (engHints.callArgs hc args, 0)
   | [] => by rw [engHints.callArgs, refHints.refArgs]
   | .msel s r :: as => by
-    rw [engHints.callArgs, refHints.refArgs, args_eq_ref hc p ha hcall as]
-    congr 1
-    obtain ⟨h1, _, _⟩ := ha
+    rw [engHints.callArgs, refHints.refArgs]
+    try simp only
+    rw [args_eq_ref step hc p ha hcall as]
+    obtain ⟨h1, _, _, h4, _⟩ := ha
     cases hc
     simp only [refFunc, refGroup] at *
     simp_all
   | .vsel s :: as => by
-    rw [engHints.callArgs, refHints.refArgs, args_eq_ref hc p ha hcall as, eng_eq_ref hc p ha (.vsel s)]
+    rw [engHints.callArgs, refHints.refArgs]
+    try simp only
+    rw [eng_eq_ref step hc p ha (.vsel s)]
+    try simp only
+    rw [args_eq_ref step hc p ha hcall as]
     all_goals (intro s r hh; cases hh)
   | .call fn xs :: as => by
-    rw [engHints.callArgs, refHints.refArgs, args_eq_ref hc p ha hcall as, eng_eq_ref hc p ha (.call fn xs)]
+    rw [engHints.callArgs, refHints.refArgs]
+    try simp only
+    rw [eng_eq_ref step hc p ha (.call fn xs)]
+    try simp only
+    rw [args_eq_ref step hc p ha hcall as]
     all_goals (intro s r hh; cases hh)
   | .agg op w g e :: as => by
-    rw [engHints.callArgs, refHints.refArgs, args_eq_ref hc p ha hcall as, eng_eq_ref hc p ha (.agg op w g e)]
+    rw [engHints.callArgs, refHints.refArgs]
+    try simp only
+    rw [eng_eq_ref step hc p ha (.agg op w g e)]
+    try simp only
+    rw [args_eq_ref step hc p ha hcall as]
     all_goals (intro s r hh; cases hh)
   | .aggP op w g q e :: as => by
-    rw [engHints.callArgs, refHints.refArgs, args_eq_ref hc p ha hcall as, eng_eq_ref hc p ha (.aggP op w g q e)]
+    rw [engHints.callArgs, refHints.refArgs]
+    try simp only
+    rw [eng_eq_ref step hc p ha (.aggP op w g q e)]
+    try simp only
+    rw [args_eq_ref step hc p ha hcall as]
     all_goals (intro s r hh; cases hh)
   | .bin op b m l r :: as => by
-    rw [engHints.callArgs, refHints.refArgs, args_eq_ref hc p ha hcall as, eng_eq_ref hc p ha (.bin op b m l r)]
+    rw [engHints.callArgs, refHints.refArgs]
+    try simp only
+    rw [eng_eq_ref step hc p ha (.bin op b m l r)]
+    try simp only
+    rw [args_eq_ref step hc p ha hcall as]
     all_goals (intro s r hh; cases hh)
   | .neg e :: as => by
-    rw [engHints.callArgs, refHints.refArgs, args_eq_ref hc p ha hcall as, eng_eq_ref hc p ha (.neg e)]
+    rw [engHints.callArgs, refHints.refArgs]
+    try simp only
+    rw [eng_eq_ref step hc p ha (.neg e)]
+    try simp only
+    rw [args_eq_ref step hc p ha hcall as]
     all_goals (intro s r hh; cases hh)
   | .pos e :: as => by
-    rw [engHints.callArgs, refHints.refArgs, args_eq_ref hc p ha hcall as, eng_eq_ref hc p ha (.pos e)]
+    rw [engHints.callArgs, refHints.refArgs]
+    try simp only
+    rw [eng_eq_ref step hc p ha (.pos e)]
+    try simp only
+    rw [args_eq_ref step hc p ha hcall as]
     all_goals (intro s r hh; cases hh)
   | .paren e :: as => by
-    rw [engHints.callArgs, refHints.refArgs, args_eq_ref hc p ha hcall as, eng_eq_ref hc p ha (.paren e)]
+    rw [engHints.callArgs, refHints.refArgs]
+    try simp only
+    rw [eng_eq_ref step hc p ha (.paren e)]
+    try simp only
+    rw [args_eq_ref step hc p ha hcall as]
     all_goals (intro s r hh; cases hh)
   | .stepInv e :: as => by
-    rw [engHints.callArgs, refHints.refArgs, args_eq_ref hc p ha hcall as, eng_eq_ref hc p ha (.stepInv e)]
+    rw [engHints.callArgs, refHints.refArgs]
+    try simp only
+    rw [eng_eq_ref step hc p ha (.stepInv e)]
+    try simp only
+    rw [args_eq_ref step hc p ha hcall as]
     all_goals (intro s r hh; cases hh)
   | .subq e :: as => by
-    rw [engHints.callArgs, refHints.refArgs, args_eq_ref hc p ha hcall as, eng_eq_ref hc p ha (.subq e)]
+    rw [engHints.callArgs, refHints.refArgs]
+    try simp only
+    rw [eng_eq_ref step hc p ha (.subq e)]
+    try simp only
+    rw [args_eq_ref step hc p ha hcall as]
     all_goals (intro s r hh; cases hh)
   | .num v :: as => by
-    rw [engHints.callArgs, refHints.refArgs, args_eq_ref hc p ha hcall as, eng_eq_ref hc p ha (.num v)]
+    rw [engHints.callArgs, refHints.refArgs]
+    try simp only
+    rw [eng_eq_ref step hc p ha (.num v)]
+    try simp only
+    rw [args_eq_ref step hc p ha hcall as]
     all_goals (intro s r hh; cases hh)
   | .str :: as => by
-    rw [engHints.callArgs, refHints.refArgs, args_eq_ref hc p ha hcall as, eng_eq_ref hc p ha .str]
+    rw [engHints.callArgs, refHints.refArgs]
+    try simp only
+    rw [eng_eq_ref step hc p ha (.str)]
+    try simp only
+    rw [args_eq_ref step hc p ha hcall as]
     all_goals (intro s r hh; cases hh)
   | .coalesce es :: as => by
-    rw [engHints.callArgs, refHints.refArgs, args_eq_ref hc p ha hcall as, eng_eq_ref hc p ha (.coalesce es)]
+    rw [engHints.callArgs, refHints.refArgs]
+    try simp only
+    rw [eng_eq_ref step hc p ha (.coalesce es)]
+    try simp only
+    rw [args_eq_ref step hc p ha hcall as]
     all_goals (intro s r hh; cases hh)
   | .remote i e :: as => by
-    rw [engHints.callArgs, refHints.refArgs, args_eq_ref hc p ha hcall as, eng_eq_ref hc p ha (.remote i e)]
+    rw [engHints.callArgs, refHints.refArgs]
+    try simp only
+    rw [eng_eq_ref step hc p ha (.remote i e)]
+    try simp only
+    rw [args_eq_ref step hc p ha hcall as]
     all_goals (intro s r hh; cases hh)
 
 end
 
-/-- **for every expression the engine creates each selector with the `Func`, `By` and `Grouping`
-hints the reference engine derives for it** -/
-theorem engine_hints_are_reference_hints (e : Expr V) : engHints Hint.empty e = refHints [] e :=
-  eng_eq_ref Hint.empty [] agrees_empty e
+/-- **for every expression the engine creates each selector with the `Func`, `By`, `Grouping`,
+`Step` and `Range` hints the reference engine derives for it**, and the reference's mutable
+`evalRange` is back at 0 when the traversal ends -/
+theorem engine_hints_are_reference_hints (step : Int) (e : Expr V) :
+    refHints step [] 0 e = (engHints (Hint.start step) e, 0) :=
+  eng_eq_ref step (Hint.start step) [] (agrees_start step) e
 
 end PromqlVerif
